@@ -35,7 +35,11 @@ func callGenerateTOTP(secret string, t time.Time, p *otp.Param) (code string, er
 	return
 }
 
-func judgeTOTP(c *Ctx, k totpCase) {
+func judgeTOTP(c *Ctx, k totpCase) { judgeTOTPp(c, k, nil) }
+
+// judgeTOTPp: with shared != nil the parameters travel in that caller-owned object, overwritten in place for this call
+// (the same pointer as in the previous call, other field values).
+func judgeTOTPp(c *Ctx, k totpCase, shared *otp.Param) {
 	r := c.R
 	key := unhex(k.KeyHex)
 	var p *otp.Param
@@ -45,6 +49,11 @@ func judgeTOTP(c *Ctx, k totpCase) {
 	} else {
 		k.Skew = unusedField(uint64(k.At.Unix) ^ uint64(len(k.Secret)))
 		p = &otp.Param{Digits: otp.Digits(k.Digits), Algorithm: otp.Algorithm(k.Algo), Period: uint(k.Period), Skew: uint(k.Skew)}
+		if shared != nil {
+			*shared = *p
+			p = shared
+			r.Count("calls_with_one_parameter_object_rewritten_in_place", 1)
+		}
 	}
 	at := k.At.Time()
 	if gen.HasMono(at) {
@@ -300,12 +309,18 @@ func c02ParamRelatives(c *Ctx) {
 		v := base
 		v.At.Unix = unix - unix%int64(pp) + int64(rng.Intn(int(pp)))
 		rel = append(rel, v)
+		// every second history hands the parameters over in ONE caller-owned object whose fields are rewritten in place
+		// between the calls (what identifies parameters by their address sees the same parameters throughout)
+		var shared *otp.Param
+		if w%2 == 1 {
+			shared = new(otp.Param)
+		}
 		for _, r := range rel {
-			judgeTOTP(c, base)
-			judgeTOTP(c, r)
+			judgeTOTPp(c, base, shared)
+			judgeTOTPp(c, r, shared)
 			c.R.Count("one_parameter_changed_history_calls", 2)
 		}
-		judgeTOTP(c, base)
+		judgeTOTPp(c, base, shared)
 	}
 }
 
